@@ -253,7 +253,29 @@ def run(run):
                 run.ok("C04.F2", "the only conditions on the insert are ch != NUL and !ch.is_whitespace()", where(t))
             else:
                 run.bad("C04.F2", "insert-guard", where(t), "cell insert is guarded by %s; expected exactly `ch != '\\0' && !ch.is_whitespace()`" % sorted(conds))
-        run.floor("C04.F2", "cell_inserts", len(inserts), 1)
+        n_sites = len(inserts)
+        if not inserts:
+            # the iterator form: map.extend(row.chars().enumerate().filter(P).map(|(x, ch)| (Cell::new(x, y), ch)))
+            from ..common import cell_extend_sites
+            for site in cell_extend_sites(prog, cf):
+                n_sites += 1
+                t = site["term"]
+                col, row, ch = strip(site["col"]), strip(site["row"]), strip(site["ch"])
+                col0 = strip(col[2]) if col[0] == "cast" else col
+                row0 = strip(row[2]) if row[0] == "cast" else row
+                idx_ok = col0 == ("param", 2, ("0",)) and ch == ("param", 2, ("1",)) and not mentions(row0, lambda z: z[0] == "bin") and \
+                    row0[0] == "field" and tuple(row0[2])[-2:] == ("0", "0") and mentions(row0, lambda z: z[0] == "call" and z[1].endswith("Iterator::enumerate")) and \
+                    not mentions(row0, lambda z: z[0] == "call" and z[1].endswith("str::<impl str>::chars"))
+                if idx_ok:
+                    run.ok("C04.F2", "a cell is inserted at (enumerate index of the character, enumerate index of the row) with that character", where(t))
+                else:
+                    run.bad("C04.F2", "cell-index", where(t), "the inserted cell/char is `(%s, %s)` / `%s`: not the plain enumerate indices of the character's column and row" % (
+                        expr_str(col)[:60], expr_str(row)[:60], expr_str(ch)[:40]))
+                if site["filter_atoms"] == {"ws", "nul"}:
+                    run.ok("C04.F2", "the only conditions on the insert are ch != NUL and !ch.is_whitespace()", where(t))
+                else:
+                    run.bad("C04.F2", "insert-guard", where(t), "cell insert is filtered by %s; expected exactly `ch != '\\0' && !ch.is_whitespace()`" % sorted(map(str, site["filter_atoms"])))
+        run.floor("C04.F2", "cell_inserts", n_sites, 1)
     # ---------------- F3 anchor
     tf = prog.methods("from", r"fragment::text::Text$", r"From<.*text::CellText>")
     if len(tf) != 1:
